@@ -65,7 +65,8 @@ func (f *fetchResult) getResponse() (data io.ReadCloser, header http.Header, sta
 	case fetchTypeDirect:
 		return f.Direct.Response.Body, f.Direct.Response.Header, f.Direct.UpstreamStatus
 	case fetchTypeCached:
-		return f.Cached.Entry.Data, f.Cached.Entry.Metadata.Object.Header, f.Cached.UpstreamStatus
+		// A stored response is always a 200; UpstreamStatus is 0 when it was served without contacting the origin.
+		return f.Cached.Entry.Data, f.Cached.Entry.Metadata.Object.Header, http.StatusOK
 	}
 	return nil, nil, 0
 }
